@@ -70,15 +70,17 @@ func (b *Buffer) WriteInt64(n int64) {
 func (b *Buffer) WriteUint(n uint) {
 	if is64Bit {
 		b.WriteUint64(uint64(n))
+	} else {
+		b.WriteUint32(uint32(n))
 	}
-	b.WriteUint32(uint32(n))
 }
 
 func (b *Buffer) WriteInt(n int) {
 	if is64Bit {
 		b.WriteInt64(int64(n))
+	} else {
+		b.WriteInt32(int32(n))
 	}
-	b.WriteInt32(int32(n))
 }
 
 func (b *Buffer) WriteFloat32(f float32) {
